@@ -421,13 +421,27 @@ def _run_chunk(args):
     return out
 
 
-def pmap(func, items, chunk=None, jobs=None):
-    """Map func over items in long-lived worker processes (fork).
+class Crashed(dict):
+    """result placeholder for an item during which the worker process died (segfault / abort inside the
+    library) or exceeded the per-item time limit.  Callers turn it into a violation."""
 
-    func must be a module-level function; results are returned in order.
-    """
+
+def _single(args):
+    func, item = args
+    quiet()
+    return func(item)
+
+
+def pmap(func, items, chunk=None, jobs=None, item_timeout=None):
+    """Map func over items in worker processes (fork).  Results in order.
+
+    A worker that dies (the library crashed the interpreter) or hangs does not hang the check: the items of
+    the broken batch are re-run one by one in single-use processes with a time limit, and the culprit's
+    result is a Crashed placeholder (see good())."""
     items = list(items)
     jobs = jobs or nproc()
+    if item_timeout is None:
+        item_timeout = float(os.environ.get("VERIF_ITEM_TIMEOUT", "900"))
     if jobs == 1 or len(items) <= 1:
         old = sys.stdout
         quiet()
@@ -436,16 +450,105 @@ def pmap(func, items, chunk=None, jobs=None):
         finally:
             sys.stdout = old
     import multiprocessing as mp
+    from concurrent.futures import ProcessPoolExecutor, as_completed
+    from concurrent.futures.process import BrokenProcessPool
     if chunk is None:
         chunk = max(1, min(64, len(items) // (jobs * 8) or 1))
     chunks = [items[i:i + chunk] for i in range(0, len(items), chunk)]
     ctx = mp.get_context("fork")
-    with ctx.Pool(jobs, initializer=_worker_init) as pool:
-        res = pool.map(_run_chunk, [(func, c) for c in chunks], chunksize=1)
-    out = []
-    for r in res:
-        out.extend(r)
-    return out
+    results = [None] * len(chunks)
+    redo = []
+    ex = ProcessPoolExecutor(jobs, mp_context=ctx, initializer=_worker_init)
+    try:
+        futs = {ex.submit(_run_chunk, (func, c)): i for i, c in enumerate(chunks)}
+        budget = item_timeout * max(1, chunk) * (len(chunks) / float(jobs) + 1)
+        try:
+            for f in as_completed(futs, timeout=budget):
+                i = futs[f]
+                try:
+                    results[i] = f.result()
+                except BrokenProcessPool:
+                    redo.append(i)
+                except HarnessError:
+                    raise
+        except Exception as e:
+            if isinstance(e, HarnessError):
+                raise
+            # timeout of the whole batch or a broken pool: everything without a result is re-done
+            pass
+        for f, i in futs.items():
+            if results[i] is None and i not in redo:
+                redo.append(i)
+    finally:
+        procs = list((getattr(ex, "_processes", None) or {}).values())
+        ex.shutdown(wait=False, cancel_futures=True)
+        for p in procs:
+            try:
+                p.kill()
+            except Exception:
+                pass
+    for i in sorted(redo):
+        out = []
+        for item in chunks[i]:
+            out.append(_isolated(func, item, ctx, item_timeout))
+        results[i] = out
+    flat = []
+    for r in results:
+        flat.extend(r)
+    return flat
+
+
+def _isolated(func, item, ctx, timeout):
+    """run one item in a single-use process; Crashed placeholder if the process dies or hangs"""
+    rd, wr = ctx.Pipe(duplex=False)
+
+    def child():
+        quiet()
+        try:
+            r = func(item)
+            wr.send(("ok", r))
+        except HarnessError as e:
+            wr.send(("harness", str(e)))
+        except BaseException as e:   # noqa
+            wr.send(("exc", "%s: %s" % (type(e).__name__, str(e)[:200])))
+        finally:
+            wr.close()
+    p = ctx.Process(target=child)
+    p.start()
+    wr.close()
+    msg = None
+    try:
+        if rd.poll(timeout):
+            msg = rd.recv()
+    except (EOFError, OSError):
+        msg = None
+    if p.is_alive() and msg is None:
+        p.kill()
+        p.join()
+        return Crashed(reason="no result within %ds (hang)" % timeout, item=_short(item))
+    p.join(5)
+    if msg is None:
+        return Crashed(reason="worker process died (exit code %r) - the library crashed the interpreter" % p.exitcode, item=_short(item))
+    if msg[0] == "ok":
+        return msg[1]
+    if msg[0] == "harness":
+        raise HarnessError(msg[1])
+    return Crashed(reason="worker raised " + msg[1], item=_short(item))
+
+
+def _short(item):
+    s = repr(item)
+    return s if len(s) < 1500 else s[:1500] + "..."
+
+
+def good(items, results, res, sub="interpreter_crash"):
+    """iterate (item, result) pairs; Crashed placeholders become violations of res"""
+    for it, r in zip(items, results):
+        if isinstance(r, Crashed):
+            res.violation({"subcheck": sub, "case": {"item": r.get("item")}, "observed": r.get("reason"), "expected": "the call returns or raises",
+                           "what": "while exploring %s: %s" % (r.get("item", "")[:300], r.get("reason")), "finding": None})
+            continue
+        yield it, r
 
 
 def rotate(items, seed):
